@@ -243,12 +243,38 @@ Section CopyInst.
       destruct (framed_push HUnknown s _ _ W (push_type_eq _ _)) as [W1 F1].
       pose proof (lk_push_new HUnknown s) as N1.
       set (new := next s) in *. set (s1 := push_st HUnknown s) in *.
-      apply bind_inv in H as (n & s1' & Hn & H). apply find_node_inv in Hn as [-> _].
-      apply bind_inv in H as ([cs m2] & s2 & Hf & H).
       assert (MO1 : memo_ok ((ro, new) :: m) (ro :: D) s1).
       { intros o k L. rewrite copy_lookup_cons in L. destruct (Pos.eqb_spec ro o) as [->|Ne].
         - left. now left.
         - destruct (MO _ _ L) as [I|Dn]; [left; now right|right; exact (done_frame _ _ _ _ W F1 Dn)]. }
+      apply bind_inv in H as (tb & s1b & Htb & H). apply find_type_inv in Htb as [-> Htb].
+      destruct (is_basic tb) eqn:Bb.
+      { (* a basic type (since 8ab9717): the new node gets it; no constraint, no component is copied *)
+        apply bind_inv in H as (ub & sb & Hb & H). unfold set_type in Hb.
+        destruct (update_self new (fun n => mkNode tb (nrep n) (nsize n) (ncons n)) _ _ _ _ (fun _ => eq_refl) W1 N1 eq_refl Hb)
+          as (Wb & Nxb & Ob & Nb).
+        injection H as <- <- <-.
+        assert (MOb : memo_ok ((ro, new) :: m) (ro :: D) sb)
+          by (eapply (memo_ok_write _ _ s1 sb new); [exact N1|reflexivity|exact Ob|exact MO1]).
+        assert (Hs : head s ro = Some tb).
+        { destruct (root_of _ _ _ W Hro) as (nro & Lro & Ero).
+          assert (L1 : lk s1 ro = Some nro) by exact (lk_frame _ _ _ _ W F1 Lro).
+          unfold head in Htb |- *. rewrite L1, Ero, L1 in Htb. rewrite Lro, Ero, Lro. assumption. }
+        assert (Lnew : copy_lookup ro ((ro, new) :: m) = Some new) by (rewrite copy_lookup_cons, Pos.eqb_refl; reflexivity).
+        split.
+        - split; [assumption|]. split; [assumption|]. split.
+          + intros o k L. destruct (MOb _ _ L) as [[<-|I]|Dn]; [|left; assumption|right; assumption].
+            right. rewrite copy_lookup_cons, Pos.eqb_refl in L. injection L as <-. intros t0 Ht0 Rt0.
+            assert (tb = t0) by (pose proof (head_frame _ _ _ _ W0 F Ht0) as X; rewrite Hs in X; now injection X).
+            subst t0. eexists. split; [exact Nb|]. auto.
+          + split; [intros o k L; rewrite copy_lookup_cons; destruct (Pos.eqb_spec ro o) as [->|]; [congruence|assumption]|].
+            exists ro. split; [exact (rep_frame _ _ _ _ W Ff Hro)|exact Lnew].
+        - intros ro' Hr' _. rewrite Hro in Hr'. injection Hr' as <-.
+          exists tb, tb, (mkNode tb new 1%N []). split; [assumption|]. split; [exact Nb|]. split; [reflexivity|]. split; [reflexivity|].
+          split; [|split; [reflexivity|exact MOb]].
+          intros x c K. destruct tb; try discriminate Bb; destruct x; discriminate K. }
+      apply bind_inv in H as (n & s1' & Hn & H). apply find_node_inv in Hn as [-> _].
+      apply bind_inv in H as ([cs m2] & s2 & Hf & H).
       destruct (copy_constrs_spec _ _ _ _ _ _ _ _ W1 (frame_trans _ _ _ F F1) MO1 Hf) as (W2 & F2 & MO2 & L2).
       assert (N2 : lk s2 new = Some (mkNode HUnknown new 1%N [])) by exact (lk_frame _ _ _ _ W1 F2 N1).
       apply bind_inv in H as (u3 & s3 & H3 & H). unfold set_cons in H3.
